@@ -38,6 +38,7 @@ import neuroml.loaders as loaders  # noqa: E402
 import neuroml.nml.nml as nml  # noqa: E402
 import neuroml.writers as writers  # noqa: E402
 from neuroml.hdf5.NetworkBuilder import NetworkBuilder  # noqa: E402
+from neuroml.hdf5.NetworkContainer import OptimizedList  # noqa: E402
 from neuroml.hdf5.NeuroMLHdf5Parser import NeuroMLHdf5Parser  # noqa: E402
 
 NEUROML_DIR = os.path.realpath(os.path.dirname(neuroml.__file__))
@@ -276,8 +277,12 @@ def dump(o, depth=0):
         return {str(k): dump(v, depth + 1) for k, v in sorted(o.items(), key=lambda kv: str(kv[0]))}
     if hasattr(o, "__dict__") and type(o).__module__.startswith("neuroml"):
         d = {"__class__": type(o).__name__}
+        if isinstance(o, OptimizedList):
+            # an array backed list of the optimized representation IS what iterating it yields (its cursor is
+            # iteration state: dead between iterations as long as every iteration starts by rewinding it)
+            d["items"] = [dump(x, depth + 1) for x in o]
         for k, v in sorted(vars(o).items()):
-            if k in SKIP or v is None or (isinstance(v, list) and not v):
+            if k in SKIP or v is None or (isinstance(v, list) and not v) or (k == "cursor" and isinstance(o, OptimizedList)):
                 continue
             d[k] = dump(v, depth + 1)
         return d
@@ -352,6 +357,12 @@ class Op:
         INJ.active = False
         if o in ("xml_write_path", "xml_write_handle", "h5_write_embed", "h5_write_noembed", "am_write_doc"):
             self.doc = build_doc(ds)
+        elif o in ("xml_write_path_opt", "xml_write_handle_opt"):
+            # a document in the optimized representation (array backed instance / connection / input lists)
+            src = self.path("opt_src.nml.h5")
+            if not os.path.exists(src):
+                writers.NeuroMLHdf5Writer.write(build_doc(ds), src, embed_xml=ds.get("embed", True))
+            self.doc = loaders.NeuroMLHdf5Loader.load(src, optimized=True)
         elif o == "am_write_morph":
             self.doc = make_am(ds.get("n", 4), ds.get("mid"))
         elif o in ("h5_parse", "h5_parse_opt", "h5_load", "h5_load_opt", "file_h5"):
@@ -387,9 +398,9 @@ class Op:
 
     def call(self):
         o = self.op
-        if o == "xml_write_path":
+        if o in ("xml_write_path", "xml_write_path_opt"):
             return writers.NeuroMLWriter.write(self.doc, self.path("out.nml"))
-        if o == "xml_write_handle":
+        if o in ("xml_write_handle", "xml_write_handle_opt"):
             fh = patched_open(self.path("out_h.nml"), "w")
             self.caller_handle = fh
             return writers.NeuroMLWriter.write(self.doc, fh, close=False)
@@ -425,6 +436,22 @@ class Op:
             return loaders.read_neuroml2_string(self.extra, base_path=self.tmp)
         raise ValueError(o)
 
+    def output(self, res):
+        """what the call produced, where it can be compared exactly: the XML file written / the document loaded"""
+        if self.op.startswith("xml_write_path"):
+            try:
+                return open(self.path("out.nml")).read()
+            except OSError:
+                return None
+        if self.op.startswith("xml_write_handle"):
+            try:
+                return open(self.path("out_h.nml")).read()
+            except OSError:
+                return None
+        if self.doc is None and res is not None:
+            return jdump(res)
+        return None
+
     def after_call(self):
         """the caller's own handle (xml_write_handle) is the caller's business"""
         fh = getattr(self, "caller_handle", None)
@@ -452,6 +479,9 @@ def observe(op, fault_at, kind):
         INJ.active = False
         rec["raised"] = False
         rec["result"] = jdump(res) if res is not None and op.doc is None else None
+        if fault_at is None:
+            op.after_call()
+            op.ref_output = op.output(res)
     except BaseException as e:  # noqa: BLE001 - SystemExit from the loaders included
         INJ.active = False
         exc = e
@@ -487,8 +517,16 @@ def observe(op, fault_at, kind):
         INJ.active = True
         try:
             with contextlib.redirect_stderr(io.StringIO()):
-                op.call()
+                res2 = op.call()
             rec["retry_ok"] = True
+            INJ.active = False
+            op.after_call()
+            ref = getattr(op, "ref_output", None)
+            if ref is not None and INJ.fired is not None:
+                out2 = op.output(res2)
+                rec["retry_same"] = out2 == ref
+                if out2 != ref:
+                    rec["retry_diff"] = first_diff(ref, out2 or "")
         except BaseException as e2:  # noqa: BLE001
             rec["retry_ok"] = False
             rec["retry_err"] = "%s: %s" % (type(e2).__name__, str(e2)[:160])
